@@ -86,3 +86,23 @@ Theorem C01_del_children_is_tree_cut : forall s p,
   /\ (forall x, ~ In (Some p) (tags (subtree s x)) -> subtree s' x = subtree s x).
 Proof. exact del_children_is_tree_cut. Qed.
 Print Assumptions C01_del_children_is_tree_cut.
+
+(* capstone: EVERY accepted operation of the structural API (as modelled by `step`: parent assignment,
+   append, >>, <<, del p[name], del p.children, children assignment, sort, sep assignment), from every
+   well-formed state, is the documented edit of the rose trees hanging below the nodes (`edit_of`,
+   Heap/AbsSurgery.v: surgery = subtree moved intact + cut/graft everywhere else) *)
+Theorem C01_every_accepted_step_is_tree_edit : forall cfg s o s',
+  WF s -> step cfg s o = (s', Ok) -> edit_of cfg s s' o.
+Proof. exact step_is_tree_edit. Qed.
+Print Assumptions C01_every_accepted_step_is_tree_edit.
+
+Theorem C01_sep_assignment_keeps_trees : forall s n v x, subtree (set_sep s n v) x = subtree s x.
+Proof. exact set_sep_keeps_trees. Qed.
+Print Assumptions C01_sep_assignment_keeps_trees.
+
+(* the same along every history: each accepted step of any operation list is such an edit of the state it starts from *)
+Theorem C01_every_history_is_a_sequence_of_tree_edits : forall cfg n names seps ops o s',
+  let s := run cfg (init n names seps) ops in
+  step cfg s o = (s', Ok) -> edit_of cfg s s' o.
+Proof. intros cfg n names seps ops o s' s E. apply step_is_tree_edit; [apply run_WF, WF_init|exact E]. Qed.
+Print Assumptions C01_every_history_is_a_sequence_of_tree_edits.
